@@ -140,6 +140,34 @@ def EncState.encodeForms (strict : Bool) (e : EncState) (c : Container) (huff : 
     else ([], e)
   encodeFormsLoop strict huff e pre c.items
 
+/-! #### a header iterable that acts on the Encoder while it is being consumed
+
+An application's generator may assign `encoder.header_table_size` between two of the headers it yields (the
+assignment runs inside `encode`'s `for` loop). The prologue has already flushed what was pending when `encode`
+started; an assignment made during the loop takes effect on the table at once and stays pending for the next
+block. -/
+inductive Event
+  | field (f : FieldForm)
+  | setSize (n : Nat)
+deriving Repr
+
+def encodeEventsLoop (strict sticky huff : Bool) : EncState → Bytes → List Event → Out (Bytes × EncState)
+  | e, acc, [] => pure (acc, e)
+  | e, acc, .field f :: rest => do
+    let (b, e') ← e.add strict f.name.toBytes f.value.toBytes f.sensitiveFlag huff
+    encodeEventsLoop strict sticky huff e' (acc ++ b) rest
+  | e, acc, .setSize n :: rest => do
+    let e' ← e.setSize sticky n
+    encodeEventsLoop strict sticky huff e' acc rest
+
+def EncState.encodeEvents (strict sticky : Bool) (e : EncState) (evs : List Event) (huff : Bool) : Out (Bytes × EncState) :=
+  let (pre, e) :=
+    if e.table.resized then
+      (e.changes.flatMap (fun n => orFirst (encodeInt n 5) 0x20),
+       ({ table := { e.table with resized := false }, changes := [] } : EncState))
+    else ([], e)
+  encodeEventsLoop strict sticky huff e pre evs
+
 /-! ### the tree as it stands
 
 The model functions are parametrised by four switches so that one development can state both the
